@@ -800,7 +800,7 @@ MANIFEST = dict(
     'facts; real numpy outputs satisfy them in the differential runs); full '
     'rank / non-singularity genericity; floats as exact reals; log10/10**x '
     'as an uninterpreted inverse pair'
-    ' Concrete data-representation / scale / boundary probes of the real'
+    '. Concrete data-representation / scale / boundary probes of the real'
     ' code (dtype, container and memory-layout variants, argument'
     ' immutability, magnitudes) accompany the symbolic runs; they are'
     ' differential runs, not solver verdicts.',
